@@ -25,8 +25,29 @@ def at_every_offset(s, ins):
 
 # ------------------------------------------------------------------ attribute payloads
 
+# escape-LOOKING text after an escaped backslash, beside real escapes (Rust source text of the literal body)
+ESCAPE_BODIES = [r'\\u{XXXX}', r'\\u{110000}', r'\\u{D800}', r'\\u{}', r'\\u{', r'\\u{41', r'\\u{zz}', r'\\u{FFFFFFFFF}', r'\\u{-1}',
+                 r'\\u{f6}', r'\\u', r'\\x41', r'\\xZZ', r'\\x', r'\\n', r'\\t', r'\\\"', r"\\'", r'\\\\', r'\\0', r'\\r',
+                 r'\u{f6}', r'\x41', r'\u{1F600}', r'\n\\n', r'\u{f6}\\u{f6}', r'\\u{f6}\u{f6}', r'a\\u{D800}b\u{e9}c', r'\\\\u{110000}',
+                 r'\\u{\u{41}}', r'\\u{1F600', r'{}\\u{}', r'\\U{41}', r'\\u {41}', r'\\u{ 41 }', r'\\u{0}', r'\\u{DFFF}', r'\\u{10FFFF}', r'\\u{E000}']
+
+
+def escape_project(body, i):
+    """the literal as validator message, serde rename value, event name and plain string, in one project"""
+    return ("use serde::{Serialize, Deserialize};\n#[derive(Serialize, Deserialize)]\npub struct E%d {\n"
+            "    #[validate(length(min = 1, message = \"%s\"))]\n    #[serde(rename = \"%s\")]\n    pub a: String,\n"
+            "    #[validate(range(min = 0, max = 9, message = \"pre %s post\"), email)]\n    pub b: u8,\n}\n"
+            "#[tauri::command]\npub fn c%d(app: tauri::AppHandle, x: E%d) -> E%d { app.emit(\"%s\", \"%s\").ok(); todo!() }\n"
+            % (i, body, body, body, i, i, i, body, body))
+
+
 def validator_payloads(tier, rng):
     out = []
+    for b in ESCAPE_BODIES:
+        for pre in ("", "a", E2):
+            out.append('length(min = 1, message = "%s%s")' % (pre, b))
+            out.append('range(max = 2, message = "%s%s%s")' % (b, pre, b))
+            out.append("length(message = '%s', min = 3)" % b[:6])
     # exhaustive message bodies over the adversarial alphabet
     alpha = ["a", "_", "\\", "(", ")", ",", "=", " ", "'", E2, E3, E4]
     k = 4 if tier == "quick" else 5
@@ -60,6 +81,9 @@ def validator_payloads(tier, rng):
 
 def serde_payloads(tier, rng):
     out = []
+    for b in ESCAPE_BODIES:
+        out.append('rename = "%s"' % b)
+        out.append('rename_all = "%s", rename(serialize = "%s")' % (b, b))
     alpha = ["a", "_", "\\", "=", " ", E2, E3, NBSP, E4]
     k = 4 if tier == "quick" else 5
     for m in words(alpha, k):
